@@ -126,7 +126,9 @@ def run_job(job, ctx):
             elif cfg["home"] == "unset":
                 env["HOME"] = None
             if k % 5 == 4:
-                env.update({"NO_COLOR": "1", "RUST_LOG": "debug", "CI": "true", "LANG": "tr_TR.UTF-8", "LC_ALL": "tr_TR.UTF-8", "COLUMNS": "20"})
+                env.update({"NO_COLOR": "1", "RUST_LOG": "debug", "CI": "true", "LANG": "tr_TR.UTF-8", "LC_ALL": "tr_TR.UTF-8", "COLUMNS": "20",
+                            "PWD": "/", "OLDPWD": root, "GIT_DIR": "/nonexistent/.git", "GIT_WORK_TREE": "/nonexistent", "TMPDIR": "/nonexistent-tmp",
+                            "XDG_CONFIG_HOME": root, "RUST_BACKTRACE": "0", "TERM": "dumb", "USER": "nobody"})
             d = diff
             if cfg["diff_order"] == "permuted":
                 d = permute_diff(diff, r)
